@@ -175,12 +175,13 @@ ld solve_residual_ratio(const vf_api *P, const vf_mat *M, int trans, const ldc *
     for (int i = 0; i < n; i++) r[i] = b[i];
     for (int j = 0; j < n; j++) for (int_t q = M->colptr[j]; q < M->colptr[j + 1]; q++) {
         int i = (int)M->rowind[q]; ldc a = M->v[q];
-        if (trans == 0) { r[i] -= a * x[j]; if (!E) bd[i] += cabsl(a) * cabsl(x[j]); }
+        if (trans == 3) a = conjl(a);
+        if (trans == 0 || trans == 3) { r[i] -= a * x[j]; if (!E) bd[i] += cabsl(a) * cabsl(x[j]); }
         else { if (trans == 2) a = conjl(a); r[j] -= a * x[i]; if (!E) bd[j] += cabsl(a) * cabsl(x[i]); }
     }
     if (E) for (int j = 0; j < n; j++) for (int i = 0; i < n; i++) {
         ld e = E[(size_t)j * n + i]; if (e == 0) continue;
-        if (trans == 0) bd[i] += e * cabsl(x[j]); else bd[j] += e * cabsl(x[i]);
+        if (trans == 0 || trans == 3) bd[i] += e * cabsl(x[j]); else bd[j] += e * cabsl(x[i]);
     }
     ld worst = 0;
     for (int i = 0; i < n; i++) {
